@@ -4,7 +4,7 @@ import re, json, os, sys
 from harness import xmlgen as X
 
 ID = 'C17'
-COQ_ROOTS = ['Props/C17.v']
+COQ_ROOTS = ['Props/C17.v', 'GenProps/XmlHelpers_consts.v']
 RULE = ('Generated documents (names incl. non-ASCII, default/prefixed/undeclared namespaces, redundant prefixes, attributes '
         'incl. same local name in two namespaces, Unicode text with CR/LF/TAB and markup characters, CDATA, comments, PIs, '
         'mixed content, nesting <= 5) serialised by the harness; constructor programs over new_ele/new_ele_ns/new_ele_nsmap/'
